@@ -46,4 +46,29 @@ theorem lookup_mapSet {ν : Type} (m : List (Str × ν)) (k k' : Str) (v : ν) :
       · have h' : (k' == a) = false := by simpa using h
         simp [Go.mapSet, List.lookup, ha', h', ih]
 
+/-- `_, ok := m[k]` against `List.lookup` -/
+theorem mapHas_lookup {ν : Type} (m : List (Str × ν)) (k : Str) : Go.mapHas m k = (m.lookup k).isSome := by
+  induction m with
+  | nil => simp [Go.mapHas, List.lookup]
+  | cons a rest ih =>
+    obtain ⟨x, y⟩ := a
+    by_cases h : k = x
+    · subst h; simp [Go.mapHas, List.lookup]
+    · have h1 : (k == x) = false := by simpa using h
+      have h2 : (x == k) = false := by simpa using fun e : x = k => h e.symm
+      simp only [Go.mapHas] at ih
+      simp [Go.mapHas, List.lookup, h1, h2, ih]
+
+/-- `v := m[k]` against `List.lookup` -/
+theorem mapGet_lookup {ν : Type} (m : List (Str × ν)) (k : Str) (z : ν) : Go.mapGet m k z = (m.lookup k).getD z := by
+  induction m with
+  | nil => simp [Go.mapGet, List.lookup]
+  | cons a rest ih =>
+    obtain ⟨x, y⟩ := a
+    by_cases h : k = x
+    · subst h; simp [Go.mapGet, List.lookup]
+    · have h1 : (k == x) = false := by simpa using h
+      have h2 : (x == k) = false := by simpa using fun e : x = k => h e.symm
+      simp [Go.mapGet, List.lookup, h1, h2, ih]
+
 end Gengo.GoRtLemmas
